@@ -26,8 +26,6 @@ var c01Audited = []auditEntry{
 	{"readFull", "d.bytes.buf[*d.bytes.i:*d.bytes.j]", "same invariant 0 <= i <= j <= len(buf)"},
 	{"readFull", "[call[dynamic:copy", "p[n:] with n the result of copy(p, ...): 0 <= n <= len(p) by the builtin's contract"},
 	{"fill", "d.bytes.buf[*d.bytes.i:", "i == j == 0 was just stored; end = min(len(buf), limit-n) >= 1 behind the n == limit guard (n <= limit by the cap and the counting rule, C10)"},
-	{"parseFitFieldArray", "d.tmp[(phi[j", "string-array scanner: ranking function j+k; both updates increase it and every index is taken after the test j+k < dsize <= 255 < len(tmp)"},
-	{"parseFitFieldArray", "d.tmp[phi[j", "string-array scanner slices d.tmp[j:j+k] / d.tmp[j:dsize] with j+k < dsize on that path"},
 }
 
 var c01AuditedPanics = map[string]string{
@@ -265,10 +263,11 @@ func c01Census(c *Ctx, r *Report, scope []*ssa.Function, ri *reachInfo) {
 	total := 0
 	for _, fn := range scope {
 		bc := c.newBounds(fn)
+		proofs := c.loopProofs(fn, bc)
 		perKey := map[string]int{}
 		for _, b := range fn.Blocks {
 			for _, ins := range b.Instrs {
-				desc, how, ok, isSite := c01Site(c, bc, fn, b, ins)
+				desc, how, ok, isSite := c01Site(c, bc, fn, b, ins, proofs)
 				if !isSite {
 					continue
 				}
@@ -329,7 +328,7 @@ func isRangeIndex(v ssa.Value) bool {
 }
 
 // c01Site classifies one instruction. Returns (description, discharge text, discharged, isSite).
-func c01Site(c *Ctx, bc *boundsCtx, fn *ssa.Function, b *ssa.BasicBlock, ins ssa.Instruction) (string, string, bool, bool) {
+func c01Site(c *Ctx, bc *boundsCtx, fn *ssa.Function, b *ssa.BasicBlock, ins ssa.Instruction, proofs map[*ssa.BasicBlock]*loopProof) (string, string, bool, bool) {
 	audited := func(desc string) (string, bool) {
 		for _, a := range c01Audited {
 			if fn.Name() == a.fn && strings.Contains(desc, a.pat) {
@@ -389,6 +388,9 @@ func c01Site(c *Ctx, bc *boundsCtx, fn *ssa.Function, b *ssa.BasicBlock, ins ssa
 			if fn.Name() == "getMesgAllInvalid" {
 				return desc, "callers+table: getMesgAllInvalid is called only under knownMsgNums[mn] (C01-R2-known-before-ctor) and every known number is below len(newMesgFuncs) with a non-nil entry (C15-1-ctor)", true, true
 			}
+			if lp := innermostProof(proofs, b); lp != nil && lp.proveIndex(idx, L, b) {
+				return desc, fmt.Sprintf("loop invariant: %s (proved inductive over every path round the loop) puts the index in [0,%d)", lp.describe(), L), true, true
+			}
 			if why, ok := audited(desc); ok {
 				return desc, why, true, true
 			}
@@ -445,6 +447,9 @@ func c01Site(c *Ctx, bc *boundsCtx, fn *ssa.Function, b *ssa.BasicBlock, ins ssa
 			}
 			if okBounds && okOrder {
 				return desc, fmt.Sprintf("interval: low %s high %s within array length %d", lo.String(), hi.String(), L), true, true
+			}
+			if lp := innermostProof(proofs, b); lp != nil && lp.proveSlice(n.Low, n.High, L, b) {
+				return desc, fmt.Sprintf("loop invariant: %s (proved inductive over every path round the loop) gives 0 <= low <= high <= %d", lp.describe(), L), true, true
 			}
 			if why, ok := audited(desc); ok {
 				return desc, why, true, true
@@ -883,8 +888,10 @@ func c01Loops(c *Ctx, r *Report, scope []*ssa.Function) {
 					}
 				}
 			}
-			if cls == "" && fn.Name() == "parseFitFieldArray" && strings.Contains(h.Comment, "for") {
-				cls, why = "audited", "string-array scanner: ranking function j+k strictly increases on both branches and the loop leaves at j+k >= dsize"
+			if cls == "" {
+				if lp := c.proveLoop(fn, h, c.newBounds(fn)); lp != nil && lp.rank != "" {
+					cls, why = "ranked", lp.rank
+				}
 			}
 			if cls == "" {
 				r.fail("C01-R3-loops", key, c.pos(firstPos(h)), "loop without a recognised termination argument (not a range loop, not a counted loop with positive step and invariant bound, no input-consuming call on every iteration): a crafted input may hang the decoder")
